@@ -319,6 +319,33 @@ def limit_guards():
     return obs
 
 
+parse_block_guard_contract("C08", lambda: REPLAY_NESTING)
+
+REPLAY_NESTING = r'''
+def run(m):
+    from liquid import Environment, Mode
+    from liquid.exceptions import LiquidError, BlockNestingError
+    bad = []
+    for depth in (40, 700):
+        src = "{% if true %}" * depth + "x" + "{% endif %}" * depth
+        for mode in (Mode.LAX, Mode.WARN):
+            import warnings
+            with warnings.catch_warnings():
+                warnings.simplefilter("ignore")
+                try:
+                    Environment(tolerance=mode).from_string(src).render()
+                except BaseException as e:
+                    bad.append((depth, mode.name, type(e).__name__))
+        try:
+            Environment().from_string(src)
+            bad.append((depth, "STRICT", "parsed"))
+        except BlockNestingError:
+            pass
+        except BaseException as e:
+            bad.append((depth, "STRICT", type(e).__name__))
+    return {"violated": bool(bad), "observed": bad[:4], "witness": "nesting-guard"}
+'''
+
 not_covered("C08", "wall-clock / memory limits (none exist)", "Parser.parse_block's block-nesting guard is covered by the structural limit-guards obligation and the bounded sweep, not by a two-run contract (token-stream loop)")
 
 bounded("C08", "bounded/C08.py")
